@@ -24,7 +24,7 @@ META = {
     "order: all ordered subsets of the loci; non-trivial = at least two tasks enabled at some point / non-empty history / >= 2 loci",
     "bound": {"quick": "sched: loci 1..4 x cores 2..3 (+5x2, 2x4), no failure and a failure at every position; hist depth 2 (8-op alphabet, seeds {0,7}); "
                        "order: all 64 ordered subsets of 4 loci x 3 programs x seeds {0,42}; 7 real CLI runs",
-              "thorough": "sched up to 5 loci x 4 cores; hist depth 3; 12 CLI runs incl. call / call-exact"},
+              "thorough": "sched up to 8 loci x 2 cores, 6 x 3, 5 x 4, 3 x 5; hist depth 3; 12 CLI runs incl. call / call-exact"},
     "assumptions": ["OS scheduling, pickling of the program into workers and pipe-level atomicity of sys.stdout.write are not owned; every interleaving "
                     "of the operations the code performs on shared objects is",
                     "tasks are deterministic given what they read, so equal canonical keys have equal futures"],
@@ -32,7 +32,7 @@ META = {
 }
 
 SCHED_QUICK = [(1, 2), (2, 2), (3, 2), (4, 2), (5, 2), (1, 3), (2, 3), (3, 3), (4, 3), (2, 4)]
-SCHED_THOROUGH = SCHED_QUICK + [(3, 4), (4, 4), (5, 3), (5, 4), (6, 2)]
+SCHED_THOROUGH = SCHED_QUICK + [(3, 4), (4, 4), (5, 3), (5, 4), (6, 2), (6, 3), (7, 2), (3, 5), (8, 2)]
 
 
 def warm(tier):
